@@ -86,6 +86,42 @@ CHECKS = {
         "closed; the semantic bound/cover theorems are still open obligations (listed in the evidence).",
    note=TB + "Hash-map iteration order is abstracted (layers sorted by a total DominanceChecker comparator; tie among equally valued terminals = oracle argument).",
    technique="executable Coq model + differential correspondence + specification oracle; partial Coq theorems"),
+ "C01": dict(cat="other", design="7.1",
+   text="Sequential branch-and-bound returns the true optimum. Closed Coq theorem (SolverProofs.v): for the model of SequentialSolver (no cache, no dominance, SimpleFringe), IF every diagram compilation satisfies the diagram contracts (feasible exact values, optimality of exact diagrams, exact / deeper / validly bounded / covering cut-sets) THEN maximize terminates within an explicit fuel bound, reports is_exact and the optimum (no value iff infeasible), lower = upper bound = optimum, with a feasible solution. The diagram contracts are only partly proved (open obligations in the evidence). The solver model is compared run by run with the code in every configuration (flavour x cache x fringe x width x dominance), and the implementation's value with exhaustive enumeration extracted from the Coq specification.",
+   note=TB + "Hash-map iteration order abstracted; ties among equally valued terminal nodes reported and excluded from trajectory comparisons.",
+   technique="Coq model + assume-guarantee proof / protocol LTS + differential correspondence + specification oracle"),
+ "C02": dict(cat="other", design="7.2",
+   text="Reported solution feasible and consistent with the reported value. Every solution reported by the sequential solver (uninterrupted, cut off at every poll) and by scheduled / un-scheduled parallel runs is replayed through the model's transition and cost functions; value = lower bound = Completion value; upper bound = value after an uninterrupted run. Coq: SolverProofs (incumbent invariant) and the best-path replay invariant of the diagram model (MddExact.v) as registered.",
+   note=TB + "Hash-map iteration order abstracted; ties among equally valued terminal nodes reported and excluded from trajectory comparisons.",
+   technique="Coq model + assume-guarantee proof / protocol LTS + differential correspondence + specification oracle"),
+ "C03": dict(cat="other", design="7.3",
+   text="Parallel solver optimal for every interleaving and thread count. A Coq labelled transition system of the coordination protocol (Par.v: one transition per acquisition of the critical mutex) is trace-validated against the real worker threads, serialised by a scheduler through feature-guarded hooks: every schedule with <= k pre-emptions on tiny instances, random schedules beyond, 1..8 workers; identical (worker, critical section) sequences and results; the implementation's value compared with exhaustive enumeration; un-scheduled 2..16-thread stress.",
+   note=TB + "Hash-map iteration order abstracted; ties among equally valued terminal nodes reported and excluded from trajectory comparisons.",
+   technique="Coq model + assume-guarantee proof / protocol LTS + differential correspondence + specification oracle"),
+ "C04": dict(cat="other", design="7.4",
+   text='Parallel solver always terminates. Same scheduled exploration with cutoffs firing at random polls and thread counts different from the construction-time count: deadlock = scheduler state with no runnable worker while one is parked; step bound; watchdog. Finding D2 (with_nb_threads above the construction count: out-of-bounds panic, then hang) was reproduced and repaired (fix: commit); the protocol model contains the pre-fix variant as refutation.',
+   note=TB + "Hash-map iteration order abstracted; ties among equally valued terminal nodes reported and excluded from trajectory comparisons.",
+   technique="Coq model + assume-guarantee proof / protocol LTS + differential correspondence + specification oracle"),
+ "C05": dict(cat="other", design="7.5",
+   text='Bounds stay sound when the search is cut off at any point. Sequential: counting cutoff firing at EVERY poll index of the uninterrupted run; bounds enclose the optimum of exhaustive enumeration, solution replays to the lower bound, exactness only when optimal; Coq solver model compared at every index. Parallel: scheduled runs with cutoffs (finding D3: unsound upper bound after an abort, reproduced and repaired by a fix: commit).',
+   note=TB + "Hash-map iteration order abstracted; ties among equally valued terminal nodes reported and excluded from trajectory comparisons.",
+   technique="Coq model + assume-guarantee proof / protocol LTS + differential correspondence + specification oracle"),
+ "C09": dict(cat="other", design="7.9",
+   text='The threshold cache never changes the answer. Store level: proved (C18). Search level: caching vs non-caching solvers vs exhaustive enumeration on re-converging instances; the Coq models of diagrams and solver include the threshold computations and the cache, and agree with the code on explored-node and poll counts. Search-level soundness theorem is open.',
+   note=TB + "Hash-map iteration order abstracted; ties among equally valued terminal nodes reported and excluded from trajectory comparisons.",
+   technique="Coq model + assume-guarantee proof / protocol LTS + differential correspondence + specification oracle"),
+ "C14": dict(cat="other", design="7.14",
+   text="A warm-start primal never makes the solver miss a better solution. Closed Coq theorem seq_solver_correct_primal (under the diagram contracts, as C01) and set_primal_strict; runs with primal = optimum / best sub-optimal / worst feasible value taken from the specification's enumeration, sequential model compared.",
+   note=TB + "Hash-map iteration order abstracted; ties among equally valued terminal nodes reported and excluded from trajectory comparisons.",
+   technique="Coq model + assume-guarantee proof / protocol LTS + differential correspondence + specification oracle"),
+ "C15": dict(cat="other", design="7.15",
+   text='Long arcs preserve optimum and termination. Pooled vs plain solver vs exhaustive enumeration on depth-free models with irrelevance patterns; termination watchdog. KNOWN FINDING D1: without cache the pooled solver may never terminate because a sub-problem can enter its own frontier cut-set (recorded in KNOWN_FINDINGS.json, not repairable by a small patch).',
+   note=TB + "Hash-map iteration order abstracted; ties among equally valued terminal nodes reported and excluded from trajectory comparisons.",
+   technique="Coq model + assume-guarantee proof / protocol LTS + differential correspondence + specification oracle"),
+ "C19": dict(cat="other", design="7.19",
+   text='Sequential anytime behaviour monotone in the cutoff point. All consecutive cutoff indices 1..K+1 of each run: lower bound non-decreasing, upper bound non-increasing, exact with both bounds at the optimum after the last poll; Coq solver model compared at every index. Monotonicity theorem open.',
+   note=TB + "Hash-map iteration order abstracted; ties among equally valued terminal nodes reported and excluded from trajectory comparisons.",
+   technique="Coq model + assume-guarantee proof / protocol LTS + differential correspondence + specification oracle"),
 }
 
 def main():
@@ -109,8 +145,8 @@ def main():
     m = {
         "version": 1,
         "setup_cmd": "bin/setup",
-        "hooks": {"guard": "cargo feature xgillard_ddo_verif (crate ddo)", "enable": "harness built with --features hooks (parallel scheduler checks only)",
-                  "baseline_off_cmd": "cd /repo && cargo test --workspace --no-fail-fast --offline", "source_commits": [], "add_only": True},
+        "hooks": {"guard": "cargo feature xgillard_ddo_verif (crate ddo)", "enable": "harness/Cargo.toml depends on ddo with features = [\"xgillard_ddo_verif\"]; the callback is only installed by the `par` command",
+                  "baseline_off_cmd": "cd /repo && cargo test --workspace --no-fail-fast --offline", "source_commits": ["604e537"], "add_only": True},
         "engines": [{"name": "coq-model+correspondence", "path": "/verif/coq /verif/extract /verif/harness /verif/tools",
                      "serves_properties": [c["property_id"] for c in checks],
                      "kind_free_text": "Coq 8.16 model + theorems; OCaml extraction; Rust differential harness; Python driver"}],
